@@ -10,7 +10,7 @@
    ([cleanb], computed along the abstract run). *)
 From Coq Require Import NArith Arith Bool List String Lia.
 From PK Require Import Base.Outcome Base.Ctl Base.Finite Base.Machine Base.Sim Gen.Types Gen.Lib Gen.Set1 Gen.Set2 Impl
-  Spec.Frame Spec.ScanRef Spec.ScanAuto Spec.Event Spec.Compose Spec.Pipeline
+  Spec.Frame Spec.ScanRef Spec.ScanAuto Spec.EventRec Spec.Compose Spec.Pipeline
   Syn.Ps2 Syn.Set1 Syn.Set2 Check.Ps2M Check.C05 Check.C06 Check.Scan Check.C01 Check.C02 Props.PipelineGen.
 From PK Require Props.C01 Props.C02 Props.C04 Props.C05 Props.C06 Props.C14 Props.C18.
 Import ListNotations.
@@ -19,19 +19,26 @@ Local Open Scope N_scope.
 Section AnyLayout.
   Context {L : Type} (f : L -> KeyCode -> Modifiers -> HandleControl -> outcome DecodedKey).
 
-  (* C04 (state half) and C14 (result half) together: the generated event decoder IS the abstract one *)
+  (* C04 (modifiers), C14 (result, configuration) together: the generated event decoder IS the abstract one
+     (this lemma, unlike C04 and C14 themselves, is about the three-field record) *)
   Lemma process_eq : forall (d : EventDecoder L) ev, EventDecoder_process_keyevent f d ev = spec_process f d ev.
   Proof.
-    intros d ev. pose proof (Props.C04.process_spec f d ev) as H1. pose proof (Props.C14.C14 f d ev) as H2.
-    assert (H3 : omap snd (spec_process f d ev) =
-                 match event_result (fun k => Ret (DecodedKey_RawKey k))
-                         (fun k => f (EventDecoder_layout d) k (EventDecoder_modifiers d) (EventDecoder_handle_ctrl d))
-                         (EventDecoder_modifiers d) ev with
-                 | None => Ret None | Some r => omap Some r end).
-    { unfold spec_process. destruct (event_result _ _ _ ev) as [[x|]|]; reflexivity. }
-    rewrite <- H3 in H2.
-    destruct (EventDecoder_process_keyevent f d ev) as [[a b]|], (spec_process f d ev) as [[a' b']|];
-      cbn [omap fst snd] in H1, H2; congruence.
+    intros d ev. pose proof (Props.C14.C14 f d ev) as HR. unfold spec_process.
+    destruct (EventDecoder_process_keyevent f d ev) as [[d' r]|] eqn:E.
+    - pose proof (Props.C04.process_mods f d ev d' r E) as Hm.
+      destruct (Props.C14.C14_process_config f d ev d' r E) as [Hh Hl].
+      cbn [omap snd] in HR. destruct d' as [hc' m' l'].
+      cbn [EventDecoder_modifiers EventDecoder_handle_ctrl EventDecoder_layout] in Hm, Hh, Hl. subst hc' m' l'.
+      destruct (event_result _ _ _ ev) as [[x|]|]; cbn [omap] in HR; try discriminate; injection HR as ->; reflexivity.
+    - cbn [omap] in HR. destruct (event_result _ _ _ ev) as [[x|]|]; cbn [omap] in HR; try discriminate; reflexivity.
+  Qed.
+
+  Lemma set_mode_eq : forall (d : EventDecoder L) hc,
+    EventDecoder_set_ctrl_handling f d hc = Ret (EventDecoder_mk hc (EventDecoder_modifiers d) (EventDecoder_layout d), tt).
+  Proof.
+    intros d hc. destruct (Props.C14.C14_set_ctrl_handling f d hc) as (d' & E & Hh & Hm & Hl). rewrite E.
+    destruct d' as [hc' m' l']. cbn [EventDecoder_modifiers EventDecoder_handle_ctrl EventDecoder_layout] in Hm, Hh, Hl.
+    subst. reflexivity.
   Qed.
 
   Lemma word_eq : forall s w, w < 2048 -> Ps2Decoder_add_word s w = Ret (check w).
@@ -51,7 +58,7 @@ Section AnyLayout.
     intros s0 l hc kb0 ops Hi Hn Hv. rewrite new_kb in Hn. injection Hn as <-.
     apply (refine_run f syn_set2 auto2 (fun _ => true) all_ctx2 (fun s _ => all_ctx2_complete s)
              (fun x => sc_after syn_set2 (path2 x)) (fun _ _ => false)
-             Props.C01.C01_closed Props.C06.C06_closed word_eq process_eq (Props.C14.C14_set_ctrl_handling f)).
+             Props.C01.C01_closed Props.C06.C06_closed word_eq process_eq set_mode_eq).
     - unfold R, pinit. cbn [p_frame p_ctx p_dec Keyboard_ps2_decoder Keyboard_scancode_set Keyboard_event_decoder].
       repeat split; try reflexivity. unfold sc_after. rewrite Hi. reflexivity.
     - apply cleanb_oks; [exact Hv|]. clear. generalize (pinit (L:=L) auto2 ctx2_init l hc).
@@ -73,7 +80,7 @@ Section AnyLayout.
     intros s0 l hc kb0 ops Hi Hn Hv Hc. rewrite new_kb in Hn. injection Hn as <-.
     apply (refine_run f syn_set1 auto1 (fun _ => true) all_prefix (fun s _ => all_prefix_complete s)
              (fun x => sc_after syn_set1 (path1 x)) exc_C02
-             Props.C02.C02_closed Props.C06.C06_closed word_eq process_eq (Props.C14.C14_set_ctrl_handling f)).
+             Props.C02.C02_closed Props.C06.C06_closed word_eq process_eq set_mode_eq).
     - unfold R, pinit. cbn [p_frame p_ctx p_dec Keyboard_ps2_decoder Keyboard_scancode_set Keyboard_event_decoder].
       repeat split; try reflexivity. unfold sc_after. rewrite Hi. reflexivity.
     - apply cleanb_oks; assumption.
